@@ -50,3 +50,79 @@ func SliceHiDown(end, n int) int {
 	}
 	return e
 }
+
+// Digits10 is the number of decimal digits of a non-negative integer below 2^64 (1 for 0).
+func Digits10(i int) int {
+	if i < 10 {
+		return 1
+	}
+	if i < 100 {
+		return 2
+	}
+	if i < 1000 {
+		return 3
+	}
+	if i < 10000 {
+		return 4
+	}
+	if i < 100000 {
+		return 5
+	}
+	if i < 1000000 {
+		return 6
+	}
+	if i < 10000000 {
+		return 7
+	}
+	if i < 100000000 {
+		return 8
+	}
+	if i < 1000000000 {
+		return 9
+	}
+	if i < 10000000000 {
+		return 10
+	}
+	if i < 100000000000 {
+		return 11
+	}
+	if i < 1000000000000 {
+		return 12
+	}
+	if i < 10000000000000 {
+		return 13
+	}
+	if i < 100000000000000 {
+		return 14
+	}
+	if i < 1000000000000000 {
+		return 15
+	}
+	if i < 10000000000000000 {
+		return 16
+	}
+	if i < 100000000000000000 {
+		return 17
+	}
+	if i < 1000000000000000000 {
+		return 18
+	}
+	return Digits10Big(i)
+}
+
+// Digits10Big covers the values above 10^18 (they do not fit a Go int constant comparison on every platform when
+// written as one literal chain, so the last steps divide first).
+func Digits10Big(i int) int {
+	if i/10 < 1000000000000000000 {
+		return 19
+	}
+	return 20
+}
+
+// Pow10OK reports that d is a power of ten up to 10^19.
+func Pow10OK(d int) bool {
+	return d == 1 || d == 10 || d == 100 || d == 1000 || d == 10000 || d == 100000 || d == 1000000 || d == 10000000 ||
+		d == 100000000 || d == 1000000000 || d == 10000000000 || d == 100000000000 || d == 1000000000000 ||
+		d == 10000000000000 || d == 100000000000000 || d == 1000000000000000 || d == 10000000000000000 ||
+		d == 100000000000000000 || d == 1000000000000000000 || d/10 == 1000000000000000000 && d-d/10*10 == 0
+}
